@@ -21,7 +21,7 @@ Ev == Traces[tid].events[l]
 
 TInit == /\ tid \in 1..Len(Traces) /\ l = 1
          /\ arms = Traces[tid].arms /\ fitted = Traces[tid].fitted
-         /\ rows = [i \in 1..Traces[tid].nrows |-> i] /\ warm = {} /\ last = [op |-> "init"]
+         /\ rows = [i \in 1..Traces[tid].nrows |-> i] /\ warm = {} /\ epoch = -1 /\ last = [op |-> "init"]
 
 PostOK(e) ==
     /\ Check("post.arms", arms' = e.post.arms)
@@ -47,5 +47,5 @@ TNext ==
          [] e.op \in {"predict", "predict_expectations"} -> Query(e.op, e.m) /\ PostOK(e) /\ ResultOK(e)
 
 Done == (l = Len(Traces[tid].events) + 1) => PrintT(<<"DONE", tid>>)
-TView == <<arms, fitted, rows, warm, tid, l>>
+TView == <<arms, fitted, rows, warm, epoch, tid, l>>
 =============================================================================
